@@ -348,7 +348,7 @@ pub enum KeyCommand {
     },
     Expire {
         key: Vec<u8>,
-        seconds: u64,
+        seconds: i64,
     },
     PExpire {
         key: Vec<u8>,
@@ -1203,8 +1203,14 @@ impl UnifiedCommandExecutor {
             }
             
             KeyCommand::Expire { key, seconds } => {
-                let result = self.storage.expire(db, &key, Duration::from_secs(seconds))?;
-                Ok(RespFrame::Integer(if result { 1 } else { 0 }))
+                // A time that is not in the future deletes the key at once, as the direct command does
+                if seconds <= 0 {
+                    let deleted = self.storage.delete(db, &key)?;
+                    Ok(RespFrame::Integer(if deleted { 1 } else { 0 }))
+                } else {
+                    let result = self.storage.expire(db, &key, Duration::from_secs(seconds as u64))?;
+                    Ok(RespFrame::Integer(if result { 1 } else { 0 }))
+                }
             }
             
             KeyCommand::PExpire { key, milliseconds } => {
@@ -2739,7 +2745,7 @@ impl CommandParser {
             return Err(FerrousError::Command(CommandError::WrongNumberOfArguments("EXPIRE".into())));
         }
         let key = Self::extract_bytes(&frames[1])?;
-        let seconds = Self::extract_string(&frames[2])?.parse::<u64>()
+        let seconds = Self::extract_string(&frames[2])?.parse::<i64>()
             .map_err(|_| FerrousError::Command(CommandError::InvalidIntegerValue))?;
         Ok(KeyCommand::Expire { key, seconds })
     }
